@@ -59,18 +59,27 @@ FinalOK(inst, sol, fin) == Len(sol) = inst.K /\ NoDup(sol)
 \* state of MCPEnv: chosen, i, weights (remaining), membership (remaining)
 Init0(inst) == [chosen |-> {}, i |-> 0, w |-> inst.w, mem |-> inst.mem]
 
-\* MCPEnv._step: action_mask = ~chosen.  QUIRK NoDoneGate: not gated by `done`; a
-\* finished row is offered the sets it has not chosen and choosing one changes `chosen`.
-Mask(inst, s) == Sets(inst) \ s.chosen
+\* MCPEnv._step: done = td["i"] >= n_to_choose - 1 (counter before the increment), with
+\* n_to_choose = n_sets_to_choose.view(-1): one flag per row, shape [B].
+\* (FORMER behaviour, quirk DoneSquare: i [B] against n_sets_to_choose [B,1] broadcast to a
+\* [B,B] tensor, entry (r,c) = i[c] >= n[r]-1.)
+Done(inst, s) == s.i >= 1 /\ s.i >= inst.K
+
+\* MCPEnv._step: action_mask = ~chosen | done: a finished row accepts ANY action as padding.
+\* (Fix "FLP/MCP instances that reached their quota ignore further (padding) selections".
+\* FORMER behaviour, quirk NoDoneGate: action_mask = ~chosen; a finished row was offered only
+\* sets it had not chosen, choosing one grew `chosen` and its reward.)
+Mask(inst, s) == IF Done(inst, s) THEN Sets(inst) ELSE Sets(inst) \ s.chosen
 
 ZeroRow(r) == [k \in DOMAIN r |-> 0]
 
-\* MCPEnv._step: chosen_membership = chosen * td["membership"] where td["membership"] is
-\* the REMAINING membership (rows of earlier choices are already zero), so only the rows
-\* of the new choice contribute; its non-zero entries are the newly covered items;
-\* weights *= (1 - covered);  membership = (~chosen) * membership
+\* MCPEnv._step: finished = td["i"] >= n_to_choose (before this step) keeps `chosen`.
+\* chosen_membership = chosen * td["membership"] where td["membership"] is the REMAINING
+\* membership (rows of earlier choices are already zero), so only the row of a NEW choice
+\* contributes (nothing at all for a finished row); its non-zero entries are the newly
+\* covered items;  weights *= (1 - covered);  membership = (~chosen) * membership
 Step(inst, s, a) ==
-  LET ch    == s.chosen \cup {a}
+  LET ch    == IF Done(inst, s) THEN s.chosen ELSE s.chosen \cup {a}
       chmem == [k \in 1..inst.N |-> IF (k - 1) \in ch THEN s.mem[k] ELSE ZeroRow(s.mem[k])]
       cov   == UNION {ToSetU(chmem[k]) : k \in 1..inst.N} \ {0}
   IN [chosen |-> ch,
@@ -78,14 +87,8 @@ Step(inst, s, a) ==
       w      |-> [j \in 1..inst.M |-> IF j \in cov THEN 0 ELSE s.w[j]],
       mem    |-> [k \in 1..inst.N |-> IF (k - 1) \in ch THEN ZeroRow(s.mem[k]) ELSE s.mem[k]]]
 
-\* MCPEnv._step: done = td["i"] >= n_sets_to_choose - 1 (counter before the increment).
-\* QUIRK DoneSquare: i is [B] and n_sets_to_choose is [B,1], the comparison broadcasts
-\* to [B,B]: entry (r,c) = i[c] >= n[r]-1.  All rows of a batch carry the same counter,
-\* so every column of row r holds row r's flag.
-Done(inst, s) == s.i >= 1 /\ s.i >= inst.K
-
 \* MCPEnv._get_reward: QUIRK RewardFromState: from td["chosen"] with orig_membership /
-\* orig_weights; `actions` is ignored
+\* orig_weights; `actions` is ignored (harmless now that padding leaves `chosen` alone)
 RewardM(inst, s, hist) ==
   SumSet(UNION {ToSetU(inst.mem[a + 1]) : a \in s.chosen} \ {0}, inst.w)
 
